@@ -537,7 +537,13 @@ func genRec(r *core.RNG, idx int) recSpec {
 	}
 	if r.Chance(1, 12) {
 		for i := 0; i < 8; i++ { // long enough to wrap
-			s.Keywords = append(s.Keywords, genText(r, 1, 2))
+			k := genText(r, 1, 3)
+			if j := strings.IndexByte(k, ' '); j > 0 && r.Chance(1, 3) {
+				// a run of blanks inside an entry: where the line is
+				// wrapped at it, one blank ends the line and one is the line break
+				k = k[:j] + " " + k[j:]
+			}
+			s.Keywords = append(s.Keywords, k)
 		}
 	}
 	if r.Chance(3, 4) {
@@ -555,7 +561,7 @@ func genRec(r *core.RNG, idx int) recSpec {
 		}
 		if r.Chance(1, 10) {
 			for i := 0; i < 9; i++ {
-				s.Taxon = append(s.Taxon, "Gammaproteobacteria")
+				s.Taxon = append(s.Taxon, []string{"Gammaproteobacteria", "Gammaproteobacteria", "unclassified  sequences", "cf.  Bacillus", "group II  introns", "Enterobacterales"}[r.Intn(6)])
 			}
 		}
 	}
